@@ -78,6 +78,7 @@ type tableEngine struct {
 	game                      Game
 	gameBackend               GameBackend
 	rg                        *syncsaga.ReadyGroup
+	rgLock                    sync.Mutex // serialises re-arming the join gate (rg) with PlayerJoin's signal to it
 	tbForOpenGame             *timebank.TimeBank
 	sm                        seat_manager.SeatManager
 	ogm                       open_game_manager.OpenGameManager
@@ -408,9 +409,11 @@ func (te *tableEngine) PlayerJoin(playerID string) error {
 	te.table.State.PlayerStates[playerIdx].IsIn = true
 
 	// 有設定 ReadyGroup，且玩家尚未 Ready 時，則 Ready
+	te.rgLock.Lock()
 	if isReady, exist := te.rg.GetParticipantStates()[int64(playerIdx)]; exist && !isReady {
 		te.rg.Ready(int64(playerIdx))
 	}
+	te.rgLock.Unlock()
 
 	// 更新 seat manager
 	if err := te.sm.JoinPlayers([]string{playerID}); err != nil {
